@@ -392,9 +392,11 @@ pub fn derive_table(repo: &str) -> String {
     let on = ops_of_fn(&f_nt, "derive_set");
     let is_str_def = norm(&local_of(&on, "is_str", "output_newtype"));
     let inner_def = norm(&local_of(&on, "inner_type", "output_newtype"));
-    if on.ops.is_empty() || on.ops[0].method != "extend" || on.ops[0].ctx != vec!["if is_str".to_string()] {
-        die(&format!("output_newtype: first derive_set operation is not `if is_str {{ derive_set.extend([..]) }}`: {:?}", on.ops.first()));
+    if on.ops.is_empty() || on.ops[0].method != "extend" || on.ops[0].ctx.len() != 1 || !on.ops[0].ctx[0].starts_with("if ") {
+        die(&format!("output_newtype: first derive_set operation is not `if <cond> {{ derive_set.extend([..]) }}`: {:?}", on.ops.first()));
     }
+    // the condition text goes into the table (pinned by the check): a changed condition is a changed table
+    let str_cond = norm(&on.ops[0].ctx[0][3..]);
     let str_ext = on.ops[0].args.clone();
     if str_ext.is_empty() {
         die("output_newtype: extension array is empty");
@@ -569,9 +571,10 @@ pub fn derive_table(repo: &str) -> String {
     writeln!(out, "Definition simple_enum_derives : list string := {}.\n", coq_list(&enum_ext)).unwrap();
     writeln!(out, "(* output_struct: no operation on derive_set *)").unwrap();
     writeln!(out, "Definition struct_derive_ops : list string := (@nil string).\n").unwrap();
-    writeln!(out, "(* output_newtype: `if is_str {{ derive_set.extend([..]) }}` *)").unwrap();
+    writeln!(out, "(* output_newtype: `if <string_newtype_cond> {{ derive_set.extend([..]) }}` *)").unwrap();
     writeln!(out, "Definition newtype_inner_def : string := {}.", coq_str(&inner_def)).unwrap();
     writeln!(out, "Definition is_str_def : string := {}.", coq_str(&is_str_def)).unwrap();
+    writeln!(out, "Definition string_newtype_cond : string := {}.", coq_str(&str_cond)).unwrap();
     writeln!(out, "Definition string_newtype_derives : list string := {}.\n", coq_list(&str_ext)).unwrap();
     writeln!(out, "(* output_newtype: `derive_set.remove(..)` per arm of `match constraints` (after the extend) *)").unwrap();
     let rows: Vec<String> = KINDS
